@@ -675,3 +675,221 @@ void h_has_tasks(void) {
     VACUITY_END();
 }
 #endif
+
+#ifdef GC
+/* global_control bookkeeping (src/tbb/global_control.cpp): control_storage family, control_storage_comparator, global_control_impl::create / destroy /
+   remove_and_check_if_empty / erase_if_present, global_control_active_value.  One job per dynamic class of the storage (GC_KIND): the virtual calls of the sliced
+   code go through dispatchers generated from what each class overrides.
+   The std::set<global_control*, control_storage_comparator> is abstract (TRUSTED: it keeps its elements unique and ordered under the comparator it is given):
+   NOBJ named control objects OBJ[j] (entry j is THE j-th control; OBJ[0] is the control being created/destroyed, OBJ[g_k] an arbitrary other control, OBJ[g_w] the
+   control that attains the active value, any further slot the element begin() is going to return) with a liveness flag each, plus g_unnamed further elements.
+   find / insert look for an element EQUIVALENT under the real sliced comparator; begin() returns a live element that no named live element precedes under the
+   real sliced comparator.  The comparator itself is proved a strict weak order that separates distinct objects and puts the preferred value first (gcontrol.comparator.*).
+   Addresses of the controls are arbitrary distinct integers (PTR_LT). */
+#include "gc_defs.inc"
+#ifndef GC_KIND
+#define GC_KIND KIND_allowed_parallelism_control
+#endif
+struct gcontrol { size_t my_value; intptr_t my_reserved; int my_param; };
+struct gset { char unused; };
+struct cstorage { int kind; size_t my_active_value; struct gset my_list; int my_list_mutex; };
+typedef struct gcontrol *set_iter;
+#define NOBJ 4
+static struct cstorage STOR[4]; static struct cstorage *controls[4];
+static struct gcontrol OBJ[NOBJ]; static bool g_live[NOBJ]; static size_t g_unnamed; static uintptr_t g_addr[NOBJ];
+static struct cstorage *g_c; static int g_param; static unsigned g_k, g_w;
+static int g_held, g_locks, g_inserts, g_erases; static bool g_check_lock;
+static unsigned g_ncpu, g_hard; static size_t g_stack_default;
+static int g_told_calls; static unsigned g_told; static int g_life;
+#define ThreadStackSize g_stack_default
+#define PTR_LT(a, b) (g_addr[(a) - OBJ] < g_addr[(b) - OBJ])
+/* what the documentation prescribes: max_allowed_parallelism -> minimum, thread_stack_size -> maximum, terminate_on_exception -> disjunction (maximum of 0/1); the
+   scheduler-handle list carries no value preference */
+#define SPEC_PREF(kind, a, b) ((kind) == KIND_allowed_parallelism_control ? (a) < (b) : (kind) == KIND_lifetime_control ? false : (a) > (b))
+#define LOCK_MUTEX(m) do { OBLIGATION(&(m) == &g_c->my_list_mutex, "C16.gcontrol.lock: the mutex taken is the list mutex of the parameter's own storage"); \
+      __CPROVER_assert(!g_held, "C16.gcontrol.lock: the list mutex is not taken twice"); g_held = 1; g_locks++; } while (0)
+#define UNLOCK_MUTEX(m) do { __CPROVER_assert(g_held && &(m) == &g_c->my_list_mutex, "C16.gcontrol.lock: unlock of the held list mutex"); g_held = 0; } while (0)
+static size_t *active_ref(struct cstorage *c) {
+    OBLIGATION(c == g_c, "C16.gcontrol: only the storage of the control's own parameter is touched");
+    if (g_check_lock) OBLIGATION(g_held, "C16.gcontrol.lock: the active value is read and written only under the storage's list mutex");
+    return &c->my_active_value;
+}
+#define CS_ACTIVE(c) (*active_ref(c))
+static bool set_empty(struct gset *s); static set_iter set_find(struct gset *s, struct gcontrol *p); static void set_insert(struct gset *s, struct gcontrol *p);
+static void set_erase(struct gset *s, set_iter it); static set_iter set_begin(struct gset *s);
+#define SET_EMPTY(s) set_empty(&(s))
+#define SET_FIND(s, p) set_find(&(s), (p))
+#define SET_END(s) ((set_iter)NULL)
+#define SET_INSERT(s, p) set_insert(&(s), (p))
+#define SET_ERASE(s, it) set_erase(&(s), (it))
+#define SET_BEGIN(s) set_begin(&(s))
+#define SET_DEREF(it) (it)
+static unsigned STUB_default_num_threads(void) { return g_ncpu; }
+static unsigned STUB_tc_max_num_workers(void) { return g_hard; }
+/* threading_control::set_active_num_workers(unsigned soft_limit): the conversion size_t -> unsigned happens at this parameter */
+static void STUB_tc_set_active_num_workers(unsigned soft_limit) {
+    g_told_calls++; g_told = soft_limit;
+    OBLIGATION(g_held, "C16.gcontrol.limit: a new worker limit is handed to the threading control under the list mutex (limits take effect in the order they were decided)");
+}
+static bool STUB_tc_register_lifetime_control(void) { g_life++; return nondet_bool(); }
+static bool STUB_tc_unregister_lifetime_control(bool blocking_terminate) { g_life--; return nondet_bool(); }
+#include "gcontrol.inc"
+#define EQUIV(a, b) (!gc_less((a), (b)) && !gc_less((b), (a)))
+#define NAMED_LIVE (g_live[0] || g_live[1] || g_live[2] || g_live[3])
+static void set_guard(struct gset *s) {
+    OBLIGATION(s == &g_c->my_list, "C16.gcontrol: only the list of the control's own parameter is touched");
+    if (g_check_lock) OBLIGATION(g_held, "C16.gcontrol.lock: the list of live controls is read and changed only under its mutex");
+}
+static bool set_empty(struct gset *s) { set_guard(s); return !NAMED_LIVE && g_unnamed == 0; }
+static set_iter set_find(struct gset *s, struct gcontrol *p) {
+    set_guard(s);
+    unsigned j = nondet_unsigned(); __CPROVER_assume(j <= NOBJ);
+    if (j < NOBJ) { __CPROVER_assume(g_live[j] && EQUIV(&OBJ[j], p)); return &OBJ[j]; }
+    __CPROVER_assume(!(g_live[0] && EQUIV(&OBJ[0], p)) && !(g_live[1] && EQUIV(&OBJ[1], p)) && !(g_live[2] && EQUIV(&OBJ[2], p)) && !(g_live[3] && EQUIV(&OBJ[3], p)));
+    return NULL;
+}
+static void set_insert(struct gset *s, struct gcontrol *p) {
+    set_guard(s); g_inserts++;
+    if ((g_live[0] && EQUIV(&OBJ[0], p)) || (g_live[1] && EQUIV(&OBJ[1], p)) || (g_live[2] && EQUIV(&OBJ[2], p)) || (g_live[3] && EQUIV(&OBJ[3], p))) return;   /* unique keys */
+    g_live[p - OBJ] = true;
+}
+static void set_erase(struct gset *s, set_iter it) {
+    set_guard(s); g_erases++;
+    OBLIGATION(it != NULL && g_live[it - OBJ], "C16.gcontrol: erase is given an iterator to a live element");
+    g_live[it - OBJ] = false;
+}
+static set_iter set_begin(struct gset *s) {
+    set_guard(s);
+    OBLIGATION(NAMED_LIVE || g_unnamed != 0, "C16.gcontrol: begin() is dereferenced only on a non-empty list");
+    unsigned b = nondet_unsigned(); __CPROVER_assume(b < NOBJ && g_live[b]);                 /* the first element is one of the named ones (by choice of the names) */
+    __CPROVER_assume((!g_live[0] || b == 0 || !gc_less(&OBJ[0], &OBJ[b])) && (!g_live[1] || b == 1 || !gc_less(&OBJ[1], &OBJ[b]))
+                  && (!g_live[2] || b == 2 || !gc_less(&OBJ[2], &OBJ[b])) && (!g_live[3] || b == 3 || !gc_less(&OBJ[3], &OBJ[b])));   /* TRUSTED: std::set order */
+    return &OBJ[b];
+}
+#define KINDP (GC_KIND == KIND_allowed_parallelism_control)
+#define KINDL (GC_KIND == KIND_lifetime_control)
+/* the representation invariant of one storage between operations (list non-empty) */
+#define ALL_NOT_PREFERRED(act) ((!g_live[0] || !SPEC_PREF(GC_KIND, OBJ[0].my_value, (act))) && (!g_live[1] || !SPEC_PREF(GC_KIND, OBJ[1].my_value, (act))) \
+                             && (!g_live[2] || !SPEC_PREF(GC_KIND, OBJ[2].my_value, (act))) && (!g_live[3] || !SPEC_PREF(GC_KIND, OBJ[3].my_value, (act))))
+#define SOME_ATTAINS(act) ((g_live[0] && OBJ[0].my_value == (act)) || (g_live[1] && OBJ[1].my_value == (act)) || (g_live[2] && OBJ[2].my_value == (act)) || (g_live[3] && OBJ[3].my_value == (act)))
+static size_t spec_default(void) { return KINDP ? (g_ncpu > 1 ? g_ncpu : 1) : GC_KIND == KIND_stack_size_control ? g_stack_default : 0; }
+static bool g_live0[NOBJ]; static size_t g_unnamed0, g_active0; static unsigned g_told0; static int g_life0;
+static void gc_setup(bool subject_live_known, bool subject_live) {
+    STOR[0].kind = GC_KIND_AT_0; STOR[1].kind = GC_KIND_AT_1; STOR[2].kind = GC_KIND_AT_2; STOR[3].kind = GC_KIND_AT_3;
+    for (int i = 0; i < 4; i++) { controls[i] = &STOR[i]; STOR[i].my_active_value = nondet_size_t(); STOR[i].my_list_mutex = 0; }
+    g_param = nondet_int(); __CPROVER_assume(0 <= g_param && g_param < parameter_max && STOR[g_param].kind == GC_KIND);
+    g_c = &STOR[g_param];
+    for (int j = 0; j < NOBJ; j++) { OBJ[j].my_value = nondet_size_t(); OBJ[j].my_param = g_param; g_live[j] = nondet_bool(); g_addr[j] = nondet_uintptr_t(); }
+    if (subject_live_known) g_live[0] = subject_live;
+    __CPROVER_assume(g_addr[0] != g_addr[1] && g_addr[0] != g_addr[2] && g_addr[0] != g_addr[3] && g_addr[1] != g_addr[2] && g_addr[1] != g_addr[3] && g_addr[2] != g_addr[3]);
+    g_unnamed = nondet_size_t(); __CPROVER_assume(g_unnamed < ((size_t)1 << 20));
+    g_ncpu = nondet_unsigned(); g_hard = nondet_unsigned(); g_stack_default = nondet_size_t(); g_told = nondet_unsigned(); g_life = nondet_int();
+    g_k = nondet_unsigned(); g_w = nondet_unsigned(); __CPROVER_assume(g_k < NOBJ && g_w < NOBJ);
+    /* d1::global_control's constructor refuses max_allowed_parallelism == 0 (__TBB_ASSERT_RELEASE); values below 2^32 (listed assumption: the worker limit is an unsigned);
+       task_scheduler_handle creates its control with the value 1 (governor.cpp: get) */
+    if (KINDP) __CPROVER_assume(OBJ[0].my_value >= 1 && OBJ[1].my_value >= 1 && OBJ[2].my_value >= 1 && OBJ[3].my_value >= 1
+                             && OBJ[0].my_value <= UINT_MAX && OBJ[1].my_value <= UINT_MAX && OBJ[2].my_value <= UINT_MAX && OBJ[3].my_value <= UINT_MAX);
+    if (KINDL) __CPROVER_assume(OBJ[0].my_value == 1 && OBJ[1].my_value == 1 && OBJ[2].my_value == 1 && OBJ[3].my_value == 1);
+    if (NAMED_LIVE || g_unnamed != 0) {
+        __CPROVER_assume(ALL_NOT_PREFERRED(g_c->my_active_value));                    /* the active value is the preferred extremum over the live controls ... */
+        __CPROVER_assume(g_live[g_w] && OBJ[g_w].my_value == g_c->my_active_value);   /* ... and a live control (named g_w) attains it */
+        if (KINDP) __CPROVER_assume(g_told == g_c->my_active_value - 1);              /* the threading control was told active - 1 */
+        if (KINDL) __CPROVER_assume(g_life == 1);                                     /* one lifetime reference is held while a handle exists */
+    } else {
+        if (KINDL) __CPROVER_assume(g_life == 0);
+    }
+    g_held = g_locks = g_inserts = g_erases = g_told_calls = 0; g_check_lock = true;
+    for (int j = 0; j < NOBJ; j++) g_live0[j] = g_live[j];
+    g_unnamed0 = g_unnamed; g_active0 = g_c->my_active_value; g_told0 = g_told; g_life0 = g_life;
+}
+#define OTHERS_UNCHANGED (g_live[1] == g_live0[1] && g_live[2] == g_live0[2] && g_live[3] == g_live0[3] && g_unnamed == g_unnamed0)
+static void gc_post_invariant(void) {
+    if (NAMED_LIVE || g_unnamed != 0) {
+        size_t act = g_c->my_active_value;
+        OBLIGATION(!g_live[g_k] || !SPEC_PREF(GC_KIND, OBJ[g_k].my_value, act),
+                   "C16.gcontrol.active: no live control has a value preferred over the active value - max_allowed_parallelism: the active value is the MINIMUM over the live controls; thread_stack_size / terminate_on_exception: the MAXIMUM");
+        OBLIGATION(SOME_ATTAINS(act), "C16.gcontrol.active: the active value is the value of some live control");
+        if (KINDP) OBLIGATION((size_t)g_told == act - 1, "C16.gcontrol.limit: while a max_allowed_parallelism control is live the threading control has been told exactly active value - 1 workers");
+        if (KINDL) OBLIGATION(g_life == 1, "C16.gcontrol.handle: exactly one lifetime reference is held while a scheduler handle exists");
+    } else {
+        if (KINDP) OBLIGATION((size_t)g_told == spec_default() - 1, "C16.gcontrol.limit: when the last max_allowed_parallelism control is gone the threading control is back at default - 1 workers");
+        if (KINDL) OBLIGATION(g_life == 0, "C16.gcontrol.handle: the lifetime reference is given up with the last scheduler handle");
+    }
+}
+void h_gc_table(void) {
+    gc_setup(false, false);
+    OBLIGATION(controls[max_allowed_parallelism]->kind == KIND_allowed_parallelism_control && controls[thread_stack_size]->kind == KIND_stack_size_control
+            && controls[terminate_on_exception]->kind == KIND_terminate_on_exception_control && controls[scheduler_handle]->kind == KIND_lifetime_control && parameter_max == 4,
+               "C16.gcontrol.table: every public parameter is served by the storage class written for it");
+    size_t a = nondet_size_t(), b = nondet_size_t();
+    struct cstorage *c = &STOR[nondet_bool() ? (nondet_bool() ? 0 : 1) : (nondet_bool() ? 2 : 3)];
+    g_c = c; g_check_lock = false;
+    OBLIGATION(CS_is_first_arg_preferred(c, a, b) == SPEC_PREF(c->kind, a, b),
+               "C16.gcontrol.preference: max_allowed_parallelism prefers the smaller value, thread_stack_size and terminate_on_exception the larger one, the scheduler-handle list none");
+    VACUITY_END();
+}
+void h_gc_comparator(void) {
+    gc_setup(false, false);
+    struct gcontrol *a = &OBJ[0], *b = &OBJ[1], *c = &OBJ[2];
+    g_check_lock = false;
+    OBLIGATION(!gc_less(a, a), "C16.gcontrol.order: the comparator is irreflexive");
+    OBLIGATION(!(gc_less(a, b) && gc_less(b, a)), "C16.gcontrol.order: the comparator is asymmetric");
+    OBLIGATION(!(gc_less(a, b) && gc_less(b, c)) || gc_less(a, c), "C16.gcontrol.order: the comparator is transitive");
+    OBLIGATION(gc_less(a, b) || gc_less(b, a), "C16.gcontrol.order: two distinct controls are never equivalent (the set never takes one control for another, equal values included)");
+    OBLIGATION(!SPEC_PREF(GC_KIND, a->my_value, b->my_value) || gc_less(a, b),
+               "C16.gcontrol.order: a control with a preferred value is ordered first, so that begin() of the list is the preferred extremum (minimum for max_allowed_parallelism, MAXIMUM for thread_stack_size / terminate_on_exception)");
+    VACUITY_END();
+}
+int IN_kind; size_t IN_v0, IN_v1, IN_v2, IN_v3, IN_active;
+static void gc_inputs(void) { IN_kind = GC_KIND; IN_v0 = OBJ[0].my_value; IN_v1 = OBJ[1].my_value; IN_v2 = OBJ[2].my_value; IN_v3 = OBJ[3].my_value; IN_active = g_active0; }
+void h_gc_create(void) {
+    gc_setup(true, false);                           /* a control is created once, by its constructor */
+    gc_inputs();
+    gci_create(&OBJ[0]);
+    OBLIGATION(!g_held && g_locks == 1, "C16.gcontrol.lock: the list mutex is taken once and released");
+    OBLIGATION(g_live[0] && g_inserts == 1 && g_erases == 0 && OTHERS_UNCHANGED, "C16.gcontrol.create: the new control is registered as live; no other control is added or removed");
+    OBLIGATION(g_c->my_active_value == g_active0 || g_c->my_active_value == OBJ[0].my_value, "C16.gcontrol.create: the active value is kept or becomes the new control's value");
+    if (KINDP) OBLIGATION(g_told_calls == (g_c->my_active_value != g_active0 ? 1 : 0) || (g_told_calls == 1 && (size_t)g_told == g_c->my_active_value - 1), "C16.gcontrol.limit: a changed max_allowed_parallelism is handed on exactly once");
+    else OBLIGATION(g_told_calls == 0, "C16.gcontrol.limit: only max_allowed_parallelism changes the worker limit");
+    gc_post_invariant();
+    VACUITY_END();
+}
+void h_gc_destroy(void) {
+    gc_setup(false, false);
+    /* a control is destroyed once, by its destructor, after its constructor registered it; only a scheduler handle may already have been removed by finalize */
+    __CPROVER_assume(g_live[0] || g_param == scheduler_handle);
+    gc_inputs();
+    bool was_live = g_live[0];
+    gci_destroy(&OBJ[0]);
+    OBLIGATION(!g_held && g_locks == 1, "C16.gcontrol.lock: the list mutex is taken once and released");
+    OBLIGATION(!g_live[0] && g_inserts == 0 && g_erases == (was_live ? 1 : 0) && OTHERS_UNCHANGED, "C16.gcontrol.destroy: exactly the destroyed control leaves the list; a control that is not in the list removes nothing");
+    if (!was_live) OBLIGATION(g_c->my_active_value == g_active0 && g_told_calls == 0 && g_life == g_life0, "C16.gcontrol.destroy: destroying a control that is not in the list changes nothing");
+    if (!KINDP) OBLIGATION(g_told_calls == 0, "C16.gcontrol.limit: only max_allowed_parallelism changes the worker limit");
+    if (was_live) gc_post_invariant();
+    VACUITY_END();
+}
+void h_gc_remove(void) {
+    gc_setup(false, false);
+    __CPROVER_assume(NAMED_LIVE || g_unnamed != 0);      /* finalize_impl: the handle's own control is present (in-code assertion is_present) */
+    gc_inputs();
+    bool was_live = g_live[0];
+    bool r = gci_remove_and_check_if_empty(&OBJ[0]);
+    OBLIGATION(!g_held && g_locks == 1, "C16.gcontrol.lock: the list mutex is taken once and released");
+    OBLIGATION(!g_live[0] && g_inserts == 0 && g_erases == (was_live ? 1 : 0) && OTHERS_UNCHANGED, "C16.gcontrol.remove: exactly the given control leaves the list");
+    OBLIGATION(r == !(NAMED_LIVE || g_unnamed != 0), "C16.gcontrol.remove: the caller is told whether this was the last scheduler handle (it then owes the blocking release of the lifetime reference)");
+    OBLIGATION(g_c->my_active_value == g_active0 && g_told_calls == 0 && g_life == g_life0, "C16.gcontrol.remove: neither the active value nor the limit nor the lifetime reference is touched");
+    VACUITY_END();
+}
+void h_gc_active_value(void) {
+    gc_setup(false, false);
+    gc_inputs();
+    size_t r = global_control_active_value(g_param);
+    OBLIGATION(!g_held && g_locks == 1, "C16.gcontrol.lock: the list mutex is taken once and released");
+    bool nonempty = NAMED_LIVE || g_unnamed != 0;
+    if (!nonempty) OBLIGATION(r == spec_default(), "C16.gcontrol.active: with no live control the active value is the default");
+    else if (KINDP) OBLIGATION(r == ((g_hard != 0 && (size_t)g_hard + 1 < g_active0) ? (size_t)g_hard + 1 : g_active0), "C16.gcontrol.active: max_allowed_parallelism reports the extremum over the live controls, capped by the hard limit of worker threads + 1");
+    else OBLIGATION(r == g_active0, "C16.gcontrol.active: the value reported is the extremum over the live controls");
+    OBLIGATION(g_c->my_active_value == g_active0 && g_live[0] == g_live0[0] && OTHERS_UNCHANGED && g_told_calls == 0, "C16.gcontrol.active: reading changes nothing");
+    VACUITY_END();
+}
+#endif
